@@ -601,6 +601,38 @@ func (st *state) step(i int, op *Op) {
 		st.model = st.model[len(want):]
 		st.segs = st.segs[1:]
 		st.probes["consumed"]++
+	case "PopPushFront":
+		// "un-pop": take the first segment, put its tail back in front, then reuse
+		// the popped slice (PushFront must have copied)
+		got := s.pop()
+		logf("n=%d", len(got))
+		if len(st.segs) == 0 {
+			if len(got) != 0 {
+				st.fail(op.K, "content", "Pop on an empty list returned %d bytes", len(got))
+			}
+			return
+		}
+		want := st.model[:st.segs[0]]
+		if !st.checkContent(op.K, got, want, "Pop()") {
+			return
+		}
+		st.model = st.model[len(want):]
+		st.segs = st.segs[1:]
+		k := 0
+		if len(got) > 0 {
+			k = op.N % (len(got) + 1)
+		}
+		rest := got[k:]
+		keep := append([]byte(nil), rest...)
+		s.pushFront(rest)
+		for j := range got {
+			got[j] = 0x66
+		}
+		st.model = append(keep, st.model...)
+		if len(keep) > 0 {
+			st.segs = append([]int{len(keep)}, st.segs...)
+		}
+		st.probes["pop-pushfront"]++
 	case "ReadFrom":
 		r := &sreader{steps: op.R, src: st.gen}
 		n, err := s.readFrom(r)
